@@ -383,8 +383,9 @@ WFDecl(d) ==
   /\ LET s == Shape(d.p) ks == KindsOf(d) IN
      \/ Wide(d) /\ s # "?"
      \/ s = "color" /\ Len(ks) = 1 /\ ks[1] = "color"
-     \/ s = "len" /\ Len(ks) = 1 /\ ks[1] = "length"
+     \/ s = "len" /\ Len(ks) = 1 /\ ks[1] \in {"length", "var"}
      \/ s = "box" /\ Len(ks) \in 1..4 /\ \A i \in 1..Len(ks) : ks[i] = "length"
+     \/ s = "box" /\ Len(ks) = 1 /\ ks[1] = "var"        \* a shorthand whose value is one var(): its longhands are pending
      \/ s = "radius" /\ \A i \in 1..Len(ks) : ks[i] \in {"length", "slash"} /\ d.v[i] # "auto"
                      /\ \/ SlashAt(d) = {} /\ Len(ks) \in 1..4
                         \/ \E k \in 2..(Len(ks) - 1) : SlashAt(d) = {k} /\ k - 1 <= 4 /\ Len(ks) - k <= 4
@@ -412,7 +413,9 @@ Expand(d, U) ==
   LET s == Shape(d.p) IN
   IF s = "all" THEN {<<lh, Canon(d.v[1])>> : lh \in {u \in U : Shape(u) # "custom"}}
   ELSE IF s = "box" THEN
-    {<<BoxSides(d.p)[i], IF Wide(d) THEN Canon(d.v[1]) ELSE Canon(Side14(d.v, i))>> : i \in 1..4}
+    {<<BoxSides(d.p)[i], IF Wide(d) THEN Canon(d.v[1])
+                         ELSE IF Kind(d.v[1]) = "var" THEN <<"pending:var(--x)">>
+                         ELSE Canon(Side14(d.v, i))>> : i \in 1..4}
   ELSE IF s = "radius" THEN
     IF Wide(d) THEN {<<Corners[i], Canon(d.v[1])>> : i \in 1..4} ELSE
     LET k == IF SlashAt(d) = {} THEN Len(d.v) + 1 ELSE CHOOSE j \in SlashAt(d) : TRUE
